@@ -39,6 +39,7 @@ type Case struct {
 	Virt     int      `json:"virt"`
 	Nsd      int      `json:"nsd"` // NodeSpacing = ns / nsd (nsd a power of two <= 64; 0 or 1: ns itself)
 	Sden     int      `json:"sden"` // node sizes (fixed, smap) are divided by sden (> 1: sizes off the binary grid, e.g. 0.1, 12.7); 0 or 1: as given
+	Dup      int      `json:"dup"`  // 1: every value option is given twice, first with a decoy value (another size map, other spacings): the later one counts
 	Oo       int      `json:"oo"`  // 1: the option list is passed in reverse order
 	Bkl      int      `json:"bkl"` // 1..4: WithBrandesKoepfLayout(bkl-1) although the positioner is not Brandes-Koepf
 	Thor     int      `json:"thor"` // <0: library default
@@ -53,6 +54,9 @@ type Case struct {
 	Stages   int      `json:"stages"`   // emit one Stage record per component and pipeline stage (hook H1)
 	BudgetMs int      `json:"budgetms"` // wall-clock budget of this case (0: the driver's default)   // 1: malformed edge (3 strings) appended, 2: empty edge list (C18 panics)
 }
+
+// decoy maps handed to the FIRST of two WithNodeSize options (dup = 1), by case id: re-read after the call
+var decoyMaps = map[int]map[string]graph.Size{}
 
 func (c *Case) name(i int) string {
 	if i >= 1 && i <= len(c.Names) {
@@ -197,6 +201,32 @@ func buildOptions(c *Case, rec *recorder) (graph.EdgeSlice, map[string]graph.Siz
 	case "":
 	default:
 		harnessErr("case %d: unknown p5 %q", c.Case, c.P5)
+	}
+	if c.Dup == 1 {
+		// decoys first: the same options with other values, overridden by the real ones below
+		if c.Ns >= 0 {
+			opts = append(opts, autog.WithNodeSpacing(scale(c.Ns+3, c.Sc)))
+		}
+		if c.Ls >= 0 {
+			opts = append(opts, autog.WithLayerSpacing(scale(c.Ls+5, c.Sc)))
+		}
+		if len(c.Fixed) == 2 {
+			opts = append(opts, autog.WithNodeFixedSize(scale(c.Fixed[0]+1, c.Sc), scale(c.Fixed[1]+2, c.Sc)))
+		}
+		if len(c.Smap) > 0 {
+			decoy := map[string]graph.Size{}
+			for i := 1; i <= c.N; i += 2 {
+				decoy[c.name(i)] = graph.Size{W: scale(3, c.Sc), H: scale(5, c.Sc)}
+			}
+			decoyMaps[c.Case] = decoy
+			opts = append(opts, autog.WithNodeSize(decoy))
+		}
+		if c.Thor >= 0 {
+			opts = append(opts, autog.WithNetworkSimplexThoroughness(uint(c.Thor+2)))
+		}
+		if c.Virt == 1 {
+			opts = append(opts, autog.WithOutputVirtualNodes(false))
+		}
 	}
 	if c.Ns >= 0 {
 		ns := scale(c.Ns, c.Sc)
@@ -389,7 +419,7 @@ func runCase(c *Case, w writer) {
 	}
 	w.Write(enc.b)
 	if c.Reps > 0 && res.panic == nil {
-		repeat(c, w, comparable(enc.b))
+		repeat(c, w, comparable(enc.b), src, sizes, opts)
 	}
 }
 
@@ -408,7 +438,10 @@ func comparable(line []byte) string {
 // repeated runs explore different iteration orders). Logging every repetition would only make the trace longer:
 // a repetition is written to the trace - as a rel "same" member of the case's group, to be judged by the
 // specification - if its result differs from the first run's (at most three of them) or if it is the last one.
-func repeat(c *Case, w writer, first string) {
+// Every second repetition passes THE SAME source and option values as the first run (what "calling Layout again with
+// the same source and options" literally says: an option value that keeps state between calls shows only then); the
+// others rebuild them.  With a recording monitor the options are always rebuilt (the recorder is per call).
+func repeat(c *Case, w writer, first string, src0 graph.EdgeSlice, sizes0 map[string]graph.Size, opts0 []autog.Option) {
 	logged := 0
 	for k := 1; k <= c.Reps; k++ {
 		cc := *c
@@ -417,7 +450,14 @@ func repeat(c *Case, w writer, first string) {
 			cc.Rel = "same"
 		}
 		rec := &recorder{}
-		src, sizes, opts := buildOptions(&cc, rec)
+		var src graph.EdgeSlice
+		var sizes map[string]graph.Size
+		var opts []autog.Option
+		if c.Mon != 1 && k%2 == 1 {
+			src, sizes, opts = src0, sizes0, opts0
+		} else {
+			src, sizes, opts = buildOptions(&cc, rec)
+		}
 		takeNSReports()
 		curCase.Store(int64(c.Case))
 		caseStart.Store(time.Now().UnixNano())
